@@ -16,6 +16,8 @@ OBLIGATIONS = [
     "NanoVerif.C11.rules_complete",
     "NanoVerif.C11.rules_paired",
     "NanoVerif.C11.reorder_rejects_length",
+    "NanoVerif.C11.carry_keeps_entries",
+    "NanoVerif.C11.stale_table_mispairs",
 ]
 DESIGN_REF = "DESIGN.md §5 C11"
 LEVEL_TEXT = ("Lean theorems for every coverage, payload array and glyph order: _sort_by_gid returns a permutation of the (glyph, payload) pairs "
